@@ -22,12 +22,14 @@ Abstracted (stated in checks/C10.json):
     `CopyReset()` of expressions is not visible;
   * floats are IEEE bit patterns; arithmetic goes through Lean's `Float` (opaque to the theorems);
   * int64 wrap-around is not modelled (`Int`); times are Unix nanoseconds (`Int`), the zero `time.Time` is `none`;
-  * `time.Round/Truncate` are modelled on Unix nanoseconds (exact for durations dividing 24h and t ≥ 0);
+  * `time.Round/Truncate` are Kap.C16.goRound / goTruncate (absolute time since Go's zero time, any positive duration;
+    times not before year 1);
   * size hints, database / retention policy, barriers and delete-group messages are not modelled;
   * aliasing (shared maps between branches) cannot be expressed here — it is tied dynamically by the harness.
 Core Lean only.
 -/
 import Kap.Basic
+import Kap.Model.C16
 namespace Kap.C10
 
 /-! ## Values, maps -/
@@ -470,9 +472,10 @@ def shiftBatch (d : Int) (b : Batch) : Batch :=
 
 /-! ## sample -/
 
-/-- `shouldKeep`. -/
+/-- `shouldKeep`: duration form `t.Equal(t.Truncate(d))` with Go's `Time.Truncate` (Kap.C16.goTruncate: multiples of d are
+counted from Go's zero time, year 1 — NOT from the Unix epoch); count form `count % N == 0`. -/
 def shouldKeep (n dur : Int) (count : Int) (t : Int) : Bool :=
-  if dur ≠ 0 then t % dur == 0 else count % n == 0
+  if dur ≠ 0 then Kap.C16.goTruncate t dur == t else count % n == 0
 
 /-- `sampleGroup.Point`: state = count. -/
 def sampleStep (n dur : Int) (count : Int) (p : Point) : Int × List Point :=
@@ -605,11 +608,9 @@ def durBatch (e : Expr) (as : String) (unit : Int) (b : Batch) : Batch := { b wi
 
 /-! ## flatten -/
 
-/-- `time.Round(d)` on Unix nanoseconds (half up; d ≤ 0 leaves t alone). -/
-def roundTo (t d : Int) : Int :=
-  if d ≤ 0 then t else
-  let r := t % d
-  if r + r < d then t - r else t + (d - r)
+/-- `Time.Round(d)` exactly as Go computes it (Kap.C16.goRound: the remainder is taken of the absolute time since Go's zero
+time, year 1; halfway values round up; d ≤ 0 leaves t alone). Times are Unix nanoseconds. -/
+def roundTo (t d : Int) : Int := Kap.C16.goRound t d
 
 /-- The tag part of the flattened field name of one point: the values of the `on` tags joined by the delimiter
 (`none` when a tag is missing). `pre` is what the shared prefix buffer holds on entry. -/
